@@ -25,6 +25,7 @@ import Mhd.Proofs.Hash.Sha256
 import Mhd.Proofs.Hash.Md5
 import Mhd.Proofs.Hash.Sha512
 import Mhd.Proofs.Hash.Sha1
+import Mhd.Proofs.Hash.Casts
 
 namespace Mhd.C16
 open Mhd.Hash
@@ -182,6 +183,39 @@ theorem sha1_table_is_standard :
     Mhd.Gen.Hash.wsSha1Block = 64 ∧ Mhd.Gen.Hash.wsSha1LenAdd = 8 :=
   ⟨Sha1.steps_closed, Sha1.stepsMis_closed, Sha1.wsSteps_closed, Sha1.wsStepsMis_closed,
    Sha1.iv_eq, Sha1.wsIv_eq, by decide, by decide, by decide, by decide⟩
+
+/-! ### Integer widths in the control flow of update/finish
+
+  The models above take `length`, `count`, `bytes_have` as natural numbers (with the `uint64_t`
+  wrap of `count` and the `unsigned int` subtraction written out).  The C functions mix `size_t`,
+  `uint64_t` and `unsigned int`.  Widening conversions keep the value; a *narrowing* one —
+  `if (((unsigned int) length) >= bytes_left)` — does not, and no message below 4 GiB shows it.
+  `Mhd.Gen.Hash.narrowingCasts` (regenerated from clang's AST each run) lists every conversion
+  from a 64-bit to a narrower integer type in the ten update/finish functions, written or
+  implicit; the unchanged tree has exactly one per function,
+  `bytes_have = (unsigned int) (ctx->count & (BLOCK_SIZE - 1))`. -/
+
+/-- every narrowing conversion that can reach a comparison, a loop bound, a size or a local
+    variable of the update/finish functions is the identity on every value its operand can take
+    (for all values of the variables occurring in it), and the `length` parameter of every update
+    function is 64 bits wide: the natural-number `length`/`count % B` of the models is what the
+    C code computes with.  (Conversions of values that a finish function only stores — the length
+    field — are data: `…_chunks` + the byte-counter cases of the run speak about those.) -/
+theorem no_narrowing_in_control_flow :
+    (∀ c ∈ Mhd.Gen.Hash.narrowingCasts, c.dataPath = false →
+      ∀ env : String → Nat, c.operand.eval env % 2 ^ c.dstBits = c.operand.eval env) ∧
+    (∀ u ∈ Mhd.Gen.Hash.updateLengthBits, u.2.2 = 64) ∧
+    (∀ count : Nat, (count &&& 63) % 2 ^ 32 = count % 64 ∧ (count &&& 127) % 2 ^ 32 = count % 128) :=
+  ⟨fun c hc hd env => c.harmless_keeps_value (casts_harmless c hc hd) env, length_params_64,
+   fun count => ⟨bytes_have_64 count, bytes_have_128 count⟩⟩
+
+/-- non-vacuity: the list is not empty and speaks about the update functions … -/
+example : ("MHD_SHA512_256_update", "(ctx->count & (SHA512_256_BLOCK_SIZE - 1))") ∈
+    Mhd.Gen.Hash.narrowingCastsInUpdate.map (fun t => (t.1, t.2.1)) := by decide
+/-- … and the criterion rejects the conversion `(unsigned int) length`: it is not harmless, and a
+    length of 2^32 + 5 is changed by it (to 5, which is less than the free space of the buffer) -/
+example : (⟨"MHD_SHA512_256_update", "length", 34, true, true, false, 64, 32, .other "length" 64⟩ : NarrowCast).harmless = false
+    ∧ (CExpr.other "length" 64).eval (fun _ => 2 ^ 32 + 5) % 2 ^ 32 = 5 := by decide
 
 /-! ### Tests (not proofs): the specifications on published vectors -/
 
